@@ -22,3 +22,17 @@ pub assume_specification<T: std::default::Default>[ std::mem::take ](x: &mut T) 
     ensures
         r == *old(x),
 ;
+
+// `for x in &mut vec`: std implements `<&mut Vec<T> as IntoIterator>::into_iter` as `self.iter_mut()`; vstd specifies
+// `iter_mut` but not this impl. The clauses are the ones vstd gives for `iter_mut` (cf. the proved contract of
+// `IntoIterator for &mut ItemList` in U-IL, which is derived from `self.items.iter_mut()`).
+pub assume_specification<'a, T, A: std::alloc::Allocator>[ <&'a mut Vec<T, A> as IntoIterator>::into_iter ](v: &'a mut Vec<T, A>) -> (r: <&'a mut Vec<T, A> as IntoIterator>::IntoIter)
+    ensures
+        r.remaining().len() == mut_ref_current(v)@.len(),
+        r.decrease().is_some(),
+        mut_ref_future(v)@.len() == mut_ref_current(v)@.len(),
+        forall|j: int| 0 <= j < r.remaining().len() ==> mut_ref_current(#[trigger] r.remaining()[j]) == mut_ref_current(v)@[j],
+        forall|j: int| 0 <= j < r.remaining().len() ==> mut_ref_future(#[trigger] r.remaining()[j]) == mut_ref_future(v)@[j],
+        mut_ref_future(v)@ == Seq::new(r.remaining().len(), |j: int| mut_ref_future(r.remaining()[j])),
+        mut_ref_current(v)@ == Seq::new(r.remaining().len(), |j: int| mut_ref_current(r.remaining()[j])),
+;
